@@ -39,7 +39,7 @@ ASSUMPTIONS = ["code outside the traced files is atomic between two pre-emption 
                "request loss/duplication not injected: no property promises idempotent retry",
                "sampling over schedules, not proof; the single-pre-emption sweep is complete only for the sampled request pairs"]
 FAULT_KINDS = ["preemption", "client_disconnect", "step_exception", "invalid_request", "state_store_error"]
-PROBES = ["instance_restored_during_choreography", "stream_dropped_before_first_chunk", "view_and_body_on_different_threads", "save_failed_during_stepping_request", "exception_inside_a_step", "time_passes_while_stream_held", "held_stream", "late_close_of_finished_stream", "session_restarted_during_choreography", "stepping_without_session", "invalid_request_sent", "disconnect_mid_stream", "exception_mid_request",
+PROBES = ["response_held_past_the_instance_deadline", "instance_restored_during_choreography", "stream_dropped_before_first_chunk", "view_and_body_on_different_threads", "save_failed_during_stepping_request", "exception_inside_a_step", "time_passes_while_stream_held", "held_stream", "late_close_of_finished_stream", "session_restarted_during_choreography", "stepping_without_session", "invalid_request_sent", "disconnect_mid_stream", "exception_mid_request",
           "refused_while_locked", "stream_completed", "preempted_inside_run_step"]
 EXHAUSTIVE = {"quick": False, "thorough": False}
 
@@ -276,6 +276,11 @@ def generate(spec):
         for a_ in c["choreo"]:
             if a_["a"] == "open" and rng.random() < 0.3:
                 a_["other_thread"] = True
+        if c["config"].get("adapter") and any(a_["a"] == "advance" for a_ in c["choreo"]) and rng.random() < 0.5:
+            # the instance's time-out is SHORTER than the time that passes while a response is held (with an adapter, and with pre >= 1
+            # a state to restore from): the next request to the instance finds it past its deadline - and finds its lock as it is
+            c["config"]["short_timeout"] = True
+            c["config"]["pre"] = max(1, c["config"].get("pre", 0))
         if c["config"].get("adapter") and rng.random() < 0.5:
             # the state store fails while a stepping request externalises its state (disk full, store down): the request
             # ends by error, and the lock is released all the same
@@ -339,7 +344,10 @@ def execute_choreo(case):
     log.add("case", case["choreo"])
     with ServerWorld({"model": cfg["model"], "adapter": cfg.get("adapter"), "threads": "serial"}, log, res) as w:
         w.boot()
-        r = w.post("/start-instance", {"timeout": {"hours": 12} if any(a["a"] == "advance" for a in case["choreo"]) else {"minutes": 10}})
+        if cfg.get("short_timeout"):
+            res.probe("response_held_past_the_instance_deadline")
+        r = w.post("/start-instance", {"timeout": {"minutes": 5} if cfg.get("short_timeout") else
+                                       {"hours": 12} if any(a["a"] == "advance" for a in case["choreo"]) else {"minutes": 10}})
         inst = r.body["instance_uuid"]
         r = w.post("/%s/begin-session" % inst, BEGIN)
         for j in range(cfg.get("pre", 0)):
